@@ -579,7 +579,7 @@ def run_sampler(kind, r, cfg=None):
         cfg = {"kind": kind, "seed": seed, "lower": [float(v).hex() for v in lo],
                "upper": [float(v).hex() for v in hi], "scale": r.choice([3.0, 50.0, 4000.0]),
                "mass": r.choice(["none", "scalar", "vector", "matrix"]),
-               "start_on_wall": r.random() < 0.5}
+               "start_on_wall": (r.random() < 0.5) or (kind == "hmc_fd" and r.random() < 0.6)}
     lo = np.array([float.fromhex(v) for v in cfg["lower"]])
     hi = np.array([float.fromhex(v) for v in cfg["upper"]])
     n, w = len(lo), hi - lo
@@ -587,6 +587,12 @@ def run_sampler(kind, r, cfg=None):
     start = lo + w * rr.random(n)
     if cfg["start_on_wall"]:
         start[0] = hi[0] if start[0] >= 0 else lo[0]      # legal: the limits are closed
+        if kind == "hmc_fd":
+            # the finite-difference step is RELATIVE (1e-5 * t[i]): it points away from zero, so the
+            # wall it can cross is the upper one for positive and the lower one for negative
+            # coordinates -- put every coordinate on that wall
+            for i in range(n):
+                start[i] = hi[i] if start[i] >= 0 else lo[i]
         start = np.clip(start, lo, hi)
     start = np.clip(start, lo, hi)
     sc = cfg["scale"]
@@ -1024,7 +1030,7 @@ def run(rep: C.Report, tier: str) -> int:
     lap('selector-search')
     # ---- E. run-time checks on the samplers [R]
     r = C.rng_for(PROP, "samplers")
-    runs = {"gibbs": 10, "pca": 6, "hmc": 10, "ensemble": 6, "hmc_fd": 6}
+    runs = {"gibbs": 10, "pca": 6, "hmc": 10, "ensemble": 6, "hmc_fd": 10}
     if big:
         runs = {k: 6 * v for k, v in runs.items()}
     n_pts = 0
